@@ -91,6 +91,7 @@ def main(pid):
     rnd = random.Random(vlib.seed())
     mine = set(CLAUSES[pid])
     total_paths = 0
+    distinct = set()        # distinct replayed / extracted lists with at least two citations
     cfgs = ["Names", "Pins", "Keys"]
     const = "M=150 MaxPh=2 MaxFulls=3"
     for n in cfgs:
@@ -109,6 +110,7 @@ def main(pid):
         obs = vlib.impl_map("drv_resolve", "run", [p for p, _, _ in paths],
                             common={"alphabet": alpha, "prefixes": True})
         total_paths += len(paths)
+        distinct.update((n, tuple(p)) for p, _, _ in paths if len(p) >= 2)
         fails, drifts = judge(alpha, paths, obs, ev, n)
         # cross-check of the two TLC layers: the emitted expectation must agree with conformance
         for (p, exp, err), o in zip(paths, obs):
@@ -144,6 +146,7 @@ def main(pid):
         obs = vlib.impl_map("drv_resolve", "run", [p for p, _, _ in paths],
                             common={"alphabet": alpha, "prefixes": True})
         total_paths += len(paths)
+        distinct.update(("Full", tuple(p)) for p, _, _ in paths if len(p) >= 2)
         ev.cov["tlc_runs"].append({"name": "MC_Resolve_Full simulate", "walk_prefixes_replayed": len(paths),
                                    "constants": "M=150 MaxPh=3 MaxFulls=6 depth 10"})
         fails, drifts = judge(alpha, paths, obs, ev, "Full-sim", batch=4000)
@@ -213,13 +216,15 @@ def main(pid):
         if ndone != len(part):
             raise MachineryError(f"Trace_Resolve docs: {ndone} of {len(part)} judged")
     total_paths += len(dtr)
+    distinct.update(("doc", d) for d, o in zip(docs, dobs) if len(o["cites"]) >= 2)
     ev.cov["extracted_lists"] = len(dtr)
     ev.cov["traces_validated_against_impl"] = total_paths
     ev.cov["evaluations"] = total_paths
-    ev.cov["distinct_nontrivial"] = total_paths
+    ev.cov["distinct_nontrivial"] = len(distinct)
     ev.cov["rule"] = ("one citation list per transition of the complete Resolve.tla state graphs "
-                      "(path first reaching the state + one alphabet symbol); all distinct by construction; "
-                      "each is resolved by the real resolve_citations, and every prefix too")
+                      "(path first reaching the state + one alphabet symbol), prefixes of `tlc -simulate` walks, lists extracted "
+                      "from generated documents; each is resolved by the real resolve_citations, and every prefix too; "
+                      "distinct_nontrivial = distinct (alphabet, list) pairs / documents with at least two citations")
     ev.cov["exhaustive"] = thorough
     ev.cov["clauses_judged"] = sorted(mine)
     ev.assumptions = ["concretisation/projection maps of harness/drv_resolve.py (DESIGN 3.10)",
